@@ -20,6 +20,22 @@ extern "C" {
     fn dup2(a: i32, b: i32) -> i32;
     fn open(path: *const u8, flags: i32, ...) -> i32;
     fn close(fd: i32) -> i32;
+    fn clock_gettime(clk: i32, ts: *mut Timespec) -> i32;
+}
+
+#[repr(C)]
+struct Timespec {
+    tv_sec: i64,
+    tv_nsec: i64,
+}
+
+/// CPU time of this process in milliseconds (CLOCK_PROCESS_CPUTIME_ID): independent of how loaded the machine is
+fn cpu_ms() -> i64 {
+    let mut ts = Timespec { tv_sec: 0, tv_nsec: 0 };
+    unsafe {
+        clock_gettime(2, &mut ts);
+    }
+    ts.tv_sec * 1000 + ts.tv_nsec / 1_000_000
 }
 
 struct Quiet {
@@ -209,7 +225,7 @@ fn igs(args: &[&str]) -> Obs {
 }
 
 /// attribution of a stall / abort inside a sequence: one chunk per command, progress on stderr (the driver reports the last
-/// stderr line of a worker that died), elapsed milliseconds per chunk on success
+/// stderr line of a worker that died), CPU milliseconds per chunk on success
 fn timed(lang: &str, args: &[&str]) -> Obs {
     let _q = Quiet::new();
     let mut v = Vec::new();
@@ -219,16 +235,16 @@ fn timed(lang: &str, args: &[&str]) -> Obs {
         let mut c = Counts { chars: 0, ok: 0, err: 0 };
         for (i, a) in args.iter().enumerate() {
             eprintln!("c20-progress {i}");
-            let t = std::time::Instant::now();
+            let t = cpu_ms();
             feed_rip(&mut p, &mut buf, &mut caret, &unhex(a), &mut c);
-            v.push(t.elapsed().as_millis() as i64);
+            v.push(cpu_ms() - t);
         }
     } else {
         let exe: Arc<Mutex<Box<dyn icy_engine::igs::CommandExecutor>>> = Arc::new(Mutex::new(Box::<icy_engine::igs::DrawExecutor>::default()));
         let mut p = icy_engine::igs::Parser::new(exe.clone());
         for (i, a) in args.iter().enumerate() {
             eprintln!("c20-progress {i}");
-            let t = std::time::Instant::now();
+            let t = cpu_ms();
             for b in unhex(a) {
                 let _ = p.print_char(&mut buf, 0, &mut caret, char::from(b));
                 for _ in 0..64 {
@@ -237,7 +253,7 @@ fn timed(lang: &str, args: &[&str]) -> Obs {
                     }
                 }
             }
-            v.push(t.elapsed().as_millis() as i64);
+            v.push(cpu_ms() - t);
         }
     }
     Ok(v)
